@@ -36,6 +36,9 @@ CONFIGS = {
     "MADE_nde_random_mask_bn": (lambda: made_n.MADE(2, 3, num_blocks=2, use_residual_blocks=False, random_mask=True, use_batch_norm=True), (2, 2), None, ("call",)),
     "MaskedAffineAutoregressive_random": (lambda: TR.MaskedAffineAutoregressiveTransform(2, 3, num_blocks=1, use_residual_blocks=False, random_mask=True), (2, 2), None, ("forward",)),
     "ActNorm_after_init": (lambda: TR.ActNorm(2), (2, 2), "train_forward", ("forward", "inverse", "train_forward")),
+    "ActNorm_saved_before_init": (lambda: TR.ActNorm(2), (2, 2), None, ("forward", "train_forward")),
+    "ActNorm4d_saved_before_init": (lambda: TR.ActNorm(2), (2, 2, 1, 2), None, ("train_forward",)),
+    "BatchNorm_saved_before_training": (lambda: TR.BatchNorm(2), (2, 2), None, ("forward", "train_forward")),
     "BatchNorm_after_training_step": (lambda: TR.BatchNorm(2), (2, 2), "train_forward", ("forward", "inverse", "train_forward")),
     "Sigmoid_learned_temperature": (lambda: TR.Sigmoid(temperature=2.0, learn_temperature=True), (2, 2), None, ("forward",)),
     "Sigmoid_buffer_temperature": (lambda: TR.Sigmoid(temperature=3.0), (2, 2), "perturb_buffers", ("forward",)),
